@@ -312,6 +312,21 @@ def check_date_time_strings(run):
             if not (1900 <= y <= 2154) or out[1] != y - 1900 or out[2:4] != bytes([6, 15]):
                 run.violation("silently-altered-value/kind10/year-text", {"class": "Date", "text": text, "octets": out,
                                                                          "year_octet_means": "any year" if out[1] == 255 else 1900 + out[1]})
+    # a clock reading (seconds since the epoch, a float) becomes a time of day: n hundredths past the second read as n, and the
+    # hundredths stay within 0..99 however close the reading is to the next second
+    for base in (1000000000, 1700000000, 2000000000, 86400 * 365 * 60):
+        for n in list(range(100)) + [99.9, 99.99, 99.9999, 99.99995, 0.00001]:
+            when = base + n / 100.0
+            run.case(("time-now", base, n), sample=None)
+            try:
+                hh = Time().now(when).value[3]
+            except Exception as err:
+                run.violation("clock-reading-refused/" + type(err).__name__, {"when": repr(when)})
+                continue
+            run.count("clock_readings_compared")
+            want = int(n) if n == int(n) else None
+            if not (0 <= hh <= 99) or (want is not None and hh != want) or (want is None and hh not in (int(n), min(99, int(n) + 1))):
+                run.violation("clock-reading-becomes-another-time/hundredths", {"when": repr(when), "hundredths_past_the_second": n, "read_as": hh})
     # a date / a time is four numbers: fewer or more cannot be sent (the receiving side refuses anything but four octets)
     for cls, kind in ((Date, 10), (Time, 11)):
         for tup in ((), (1,), (1, 2), (1, 2, 3), (1, 2, 3, 4), (1, 2, 3, 4, 5), (1, 2, 3, 4, 5, 6)):
